@@ -85,6 +85,12 @@ func writeTreeNode(st *store.Store, t *tape.Tape, o TreeOpts, name string, depth
 				cn = fmt.Sprint(7 + seed%2000) // an entry whose name looks like a list index
 			case i == 1 && seed%5 == 0:
 				cn = ".."
+			case i == 0 && seed%7 == 3:
+				// a legal name that LOOKS percent-encoded, next to the name it
+				// would decode to: path segments are entry names, not URL text
+				cn = "r%41"
+			case i == 1 && seed%7 == 3:
+				cn = "rA"
 			}
 			child, err := writeTreeNode(st, t, o, cn, depth+1, false)
 			if err != nil {
